@@ -187,7 +187,9 @@ def check_node(ctx, case, nprobes=45):
                 except Exception as e:   # noqa
                     ctx.finding(f'driver-assign:{type(e).__name__}', case, repr(e))
     described = {f'{m}:{a}' for m, md in d['modules'].items() for a in md['accessibles']}
-    for msg in conn2.log:
+    log2 = list(conn2.log)
+    runtime_change(ctx, case, kit)
+    for msg in log2:
         ctx.ev()
         if msg[0] not in ('update', 'error_update'):
             continue
@@ -205,6 +207,48 @@ def check_node(ctx, case, nprobes=45):
                 ctx.ok('emitted-value-importable')
             except Exception as e:   # noqa
                 ctx.finding(f'emitted:update-not-importable:{info.get("type")}:{type(e).__name__}', case, f'{msg!r}: {e!r}')
+
+
+def runtime_change(ctx, case, kit):
+    """a driver changes the datatype of a parameter at run time (limits or units read from the hardware, as some drivers do):
+    the description given afterwards shows the datatype as it is now"""
+    changed = []
+    for mname, mobj in kit.modules.items():
+        for pname, pobj in mobj.parameters.items():
+            if not pobj.export or pobj.export is True:
+                continue
+            dt = pobj.datatype
+            # (widening only, so that the cached values and constants stay valid)
+            for key, newval in (('unit', lambda d_: 'mutated'), ('max', lambda d_: d_.max + 1), ('maxchars', lambda d_: d_.maxchars + 1),
+                                ('maxlen', lambda d_: d_.maxlen + 1)):
+                try:
+                    if key not in dt.propertyDict:
+                        continue
+                    before = json.dumps(dt.export_datatype(), sort_keys=True)
+                    dt.setProperty(key, newval(dt))
+                    dt.checkProperties()
+                    if json.dumps(dt.export_datatype(), sort_keys=True) != before:
+                        changed.append((mname, pobj.export, pobj))
+                        break
+                except Exception:   # noqa - not settable to that value
+                    pass
+            if changed and changed[-1][0] == mname:
+                break
+    if not changed:
+        return
+    ctx.ev()
+    try:
+        d = json.loads(json.dumps(kit.describe()))
+    except Exception as e:   # noqa - the change made here does not fit the module (not a statement about the node)
+        ctx.label(f'runtime-change:describe-raises:{type(e).__name__}')
+        return
+    for mname, wire, pobj in changed:
+        got = d['modules'].get(mname, {}).get('accessibles', {}).get(wire, {}).get('datainfo')
+        want = json.loads(json.dumps(pobj.datatype.export_datatype()))
+        if got != want:
+            ctx.finding('describe:stale-after-runtime-change', case, f'{mname}:{wire}: described {got!r}, the datatype is now {want!r}')
+            return
+    ctx.ok('describe-follows-runtime-change')
 
 
 def norm_optional(info):
